@@ -1,10 +1,13 @@
 package main
 
 import (
+	"os"
 	"path/filepath"
 	"sync/atomic"
 )
 
 var inRun atomic.Bool
+
+var distinctOut *os.File
 
 func filepathGlob(p string) ([]string, error) { return filepath.Glob(p) }
